@@ -82,6 +82,41 @@ impl Ctx {
         }
     }
 
+    /// the several-signers constructor: both signers are handed the signed form, and both signatures verify, fresh and read back
+    fn cycle_many(&mut self, t: &[u8], cls: &str) {
+        let Ok(text) = String::from_utf8(t.to_vec()) else { return; };
+        let r = guarded(|| -> Result<(String, String, String, bool), String> {
+            let mut handed: Option<String> = None;
+            let msg = CleartextSignedMessage::new_many(&text, |st| {
+                handed = Some(st.to_string());
+                let a = self.config(HashAlgorithm::Sha256).sign(&self.rk, &Password::empty(), st.as_bytes())?;
+                let mut c = { use pgp::types::SigningKey; SignatureConfig::v4(SignatureType::Text, self.real.primary_key.algorithm(), self.real.primary_key.hash_alg()) };
+                c.hashed_subpackets = vec![Subpacket::regular(SubpacketData::SignatureCreationTime(Timestamp::from_secs(1_700_000_000)))?, Subpacket::regular(SubpacketData::IssuerFingerprint(self.real.primary_key.fingerprint()))?];
+                let b = c.sign(&self.real.primary_key, &Password::empty(), st.as_bytes())?;
+                Ok(vec![a, b])
+            }).map_err(|e| e.to_string())?;
+            let signed = msg.signed_text().into_bytes();
+            let handed_ok = handed.as_deref().map(|h| h.as_bytes() == &signed[..]).unwrap_or(false);
+            let realpub = self.real.primary_key.public_key();
+            let v0 = msg.verify(&self.rk).is_ok() && msg.verify(&realpub).is_ok();
+            let arm = msg.to_armored_string(ArmorOptions::default()).map_err(|e| e.to_string())?;
+            let (rb, v1, same) = match CleartextSignedMessage::from_string(&arm) {
+                Ok((m2, _)) => (format!("OK {}", hx(m2.text().as_bytes())), m2.verify(&self.rk).is_ok() && m2.verify(&realpub).is_ok() && m2.signatures().len() == 2, m2.text() == msg.text()),
+                Err(_) => ("ERR".to_string(), false, false),
+            };
+            Ok((hx(msg.text().as_bytes()), hx(&signed), format!("{rb} v0={} v1={} signers-handed-signed-form={}", v0 as u8, v1 as u8, handed_ok as u8), v0 && v1 && same && handed_ok))
+        });
+        match r {
+            Ok(Ok((esc, signed, rb, ok))) => {
+                self.out.case("escape", &[hx(t)], &["cycle-many".into(), hx(t)], &esc, None, cls);
+                self.out.case("signed", &[hx(t)], &["cycle-many".into(), hx(t)], &signed, Some(unhx(&signed) == rfc_signed_form(t)), cls);
+                self.out.case("", &[], &["cycle-many".into(), hx(t)], &rb, Some(ok), cls);
+            }
+            Ok(Err(e)) => self.out.case("", &[], &["cycle-many".into(), hx(t)], &format!("ERR {e}"), Some(false), cls),
+            Err(p) => self.out.case("", &[], &["cycle-many".into(), hx(t)], &p, Some(false), cls),
+        }
+    }
+
     /// changes to the armored document: `keeps` says whether the signed form is
     /// unchanged (then verification must succeed) or changed (then it must fail)
     fn tamper(&mut self, t: &[u8], cls: &str) {
@@ -168,6 +203,7 @@ fn main() {
     for len in 0..=l {
         for s in strings_over(&alpha, len) {
             cx.cycle(&s, false, "exhaustive");
+            if len <= 4 { cx.cycle_many(&s, "exhaustive-many-signers"); }
         }
     }
     // grammar of lines
@@ -182,6 +218,7 @@ fn main() {
             if j + 1 < nl || cx.rng.chance(1, 2) { t.push_str(if cx.rng.chance(1, 4) { "\r\n" } else { "\n" }); }
         }
         cx.cycle(t.as_bytes(), i % 10 == 0, "grammar");
+        if i % 4 == 1 { cx.cycle_many(t.as_bytes(), "grammar-many-signers"); }
         if i % 2 == 0 { cx.tamper(t.as_bytes(), "tamper"); }
     }
     for len in 0..=(if thorough { 5 } else { 4 }) { for s in strings_over(&alpha, len) { cx.tamper(&s, "tamper-small"); } }
